@@ -129,6 +129,11 @@ ExposeDef(s, t, kind) ==
     [] kind = "fan"       -> << E(9000, 9001, "", <<G, S(t)>>, <<>>) >>
     [] kind = "bare"      -> << E(7000, 0, "", <<>>, <<>>), E(8443, 0, "tcp", <<G>>, <<>>) >>
     [] kind = "barehosts" -> << E(7000, 7001, "udp", <<>>, HostsOf(s)), E(80, 0, "", <<G>>, <<>>) >>
+    \* `to` lists with two and three entries: several global entries, global + service scoped, duplicates
+    [] kind = "twoglobal" -> << E(80, 0, "", <<G, [service |-> t, global |-> TRUE]>>, <<>>) >>
+    [] kind = "threeto"   -> << E(8080, 80, "tcp", <<G, S(t), [service |-> t, global |-> TRUE]>>, <<>>) >>
+    [] kind = "dupglobal" -> << E(9000, 0, "udp", <<G, G>>, <<>>), E(443, 80, "", <<S(t)>>, <<>>) >>
+    [] kind = "tomix"     -> << E(5432, 0, "tcp", <<S(t), S(t), G>>, <<>>), E(80, 8080, "", <<[service |-> t, global |-> TRUE], G>>, <<>>) >>
     [] kind = "badproto"  -> << E(80, 0, "sctp", <<G>>, <<>>) >>                      \* unsupported protocol: invalid
     [] kind = "port0"     -> << E(0, 80, "", <<G>>, <<>>) >>                          \* port zero: invalid
     [] kind = "bareonly"  -> << E(7000, 0, "", <<>>, <<>>) >>                      \* no global service: invalid alone
